@@ -441,6 +441,12 @@ MixIn == {Bn("and", Bn("=", Own("s"), StrA("$s")), Bn("in", Own("s"), c)) : c \i
          \cup {Bn("in", Bn(">", Own("x"), NumA("1")), c) : c \in OneSets}
          \cup {Bn("in", a, c) : a \in {Own("x"), NumA("1"), StrA("$s"), BoolA("True"), Call("len", Own("xs")), Call("str", Own("x"))}, c \in OneSets}
          \cup {Un("not", Bn("in", Own("x"), c)) : c \in OneSets}
+(* ---- a connective between two terms that SHARE some of their conjuncts / disjuncts (what absorption, weakening and
+        "same operand" shortcuts look at), the shared atom also in its mirrored spelling ---- *)
+ShAtoms == <<Own("p"), Own("q"), Fld(VarR("@A"), "b"), Bn(">", Own("x"), NumA("1"))>>
+ShTerms == {ShAtoms[i] : i \in 1..4} \cup {Bn("<", NumA("1"), Own("x"))}
+           \cup UNION {{Bn(c, ShAtoms[i], ShAtoms[j]) : c \in {"and", "or"}, j \in (i+1)..4} : i \in 1..3}
+Shared == {Bn(o, s1, t1) : o \in LogicOps, s1 \in ShTerms, t1 \in ShTerms}
 RandTerms == {IF i % 3 = 0 THEN RNum(RandDepth) ELSE RBool(RandDepth) : i \in 1..RandN}
 
 Members ==
@@ -470,6 +476,7 @@ Members ==
     [] Family = "powpow"  -> PowPow
     [] Family = "capture" -> Capture
     [] Family = "mixin"   -> MixIn
+    [] Family = "shared"  -> Shared
     [] OTHER -> {}
 
 TInit == cst \in Members
